@@ -62,7 +62,8 @@ Lemma tmodes_ok_not_by_value :
     mode_of M "bound_mem_functor" <> ByValue /\
     mode_of M "bind_functor<-1>" <> ByValue /\
     mode_of M "hide_functor" <> ByValue /\
-    mode_of M "retype_return_functor<void>" <> ByValue.
+    mode_of M "retype_return_functor<void>" <> ByValue /\
+    mode_of M "retype_functor" <> ByValue.
 Proof.
   intros M H. unfold tmodes_ok in H. simpl in H.
   repeat (apply andb_true_iff in H; let H1 := fresh "Hm" in destruct H as [H1 H]).
@@ -72,19 +73,21 @@ Proof.
   - rewrite E in Hm1; discriminate.
   - rewrite E in Hm2; discriminate.
   - rewrite E in Hm3; discriminate.
+  - rewrite E in Hm4; discriminate.
 Qed.
 
 Lemma lib_call_args_callable_args :
   forall M, tmodes_ok M = true ->
     forall f d args, lib_call_args M f d args = callable_args f args.
 Proof.
-  intros M HM. destruct (tmodes_ok_not_by_value M HM) as [H1 [H2 [H3 [H4 H5]]]].
-  induction f as [ps rf|oc mc ps rf|g IH v|g IH|g IH]; intros d args; simpl.
+  intros M HM. destruct (tmodes_ok_not_by_value M HM) as [H1 [H2 [H3 [H4 [H5 H6]]]]].
+  induction f as [ps rf|oc mc ps rf|g IH v|g IH|g IH|g IH]; intros d args; simpl.
   - rewrite (tpass_not_by_value _ d args H1). reflexivity.
   - rewrite (tpass_not_by_value _ d args H2). reflexivity.
   - rewrite (tpass_not_by_value _ d args H3). apply IH.
   - rewrite (tpass_not_by_value _ d args H4). destruct args; [reflexivity|]. apply IH.
   - rewrite (tpass_not_by_value _ d args H5). apply IH.
+  - rewrite (tpass_not_by_value _ d args H6). reflexivity.
 Qed.
 
 Lemma lib_call_callable :
@@ -167,6 +170,33 @@ Proof.
     inversion H2; subst. apply (Hn i x a); assumption.
 Qed.
 
+(* ------------------------------------------------------------------------------------------ *)
+(* retype: explicit conversion of every argument *)
+
+Lemma retype_keeps_constness :
+  forall b a, ae_const a = true -> explicit_ok (mkP b FLRef) a = false.
+Proof.
+  intros b [ab ac] H. simpl in H. subst ac. unfold explicit_ok. simpl. apply andb_false_r.
+Qed.
+
+Lemma retype_unrelated_rejected :
+  forall p a, ref_related (pt_base p) (ae_base a) = false -> downcast (pt_base p) (ae_base a) = false ->
+    explicit_converts (ae_base a) (pt_base p) = false -> explicit_ok p a = false.
+Proof.
+  intros [pb pf] [ab ac] H1 H2 H3. unfold explicit_ok. simpl in *.
+  assert (H4 : converts ab pb = false).
+  { unfold explicit_converts in H3. apply orb_false_elim in H3. exact (proj1 H3). }
+  rewrite H1, H2, ?H3, ?H4. destruct pf; reflexivity.
+Qed.
+
+Lemma retype_accepts_implicit :
+  forall p a, binds p a = true -> explicit_ok p a = true.
+Proof.
+  intros [pb pf] [ab ac].
+  destruct pf; destruct pb; destruct ab; destruct ac; intro H;
+    first [reflexivity | discriminate H].
+Qed.
+
 Print Assumptions accepts_iff_callable.
 Print Assumptions arity_mismatch_rejected.
 Print Assumptions unconvertible_parameter_rejected.
@@ -175,3 +205,6 @@ Print Assumptions nonconst_method_on_const_object_rejected.
 Print Assumptions incompatible_result_rejected.
 Print Assumptions implicit_conversions_accepted.
 Print Assumptions direct_ok_pointwise.
+Print Assumptions retype_keeps_constness.
+Print Assumptions retype_unrelated_rejected.
+Print Assumptions retype_accepts_implicit.
